@@ -196,8 +196,13 @@ func (w *World) checkAddProof(n *Node, st *State, A, B []H) {
 	var hs []H
 	var pc u.Proof
 	g := w.fp.begin("AddProof", A, B, pa.Targets, pa.Proof, pb.Targets, pb.Proof)
-	err, _ := guard(func() error { hs, pc = u.AddProof(pa, pb, A, B, st.N); return nil })
+	// (for a node embedded at a big offset the helpers are called with the big
+	// leaf count and translated targets; answers are translated back)
+	paB, pbB := n.upProof(pa, st.N), n.upProof(pb, st.N)
+	err, _ := guard(func() error { hs, pc = u.AddProof(paB, pbB, A, B, n.cfg.Big+st.N); return nil })
 	g.end()
+	pcBig := pc
+	pc.Targets = n.downTargets(pc.Targets, st.N)
 	if err != nil {
 		w.violate(n, "C14", "addproof-panic", fmt.Sprintf("AddProof(|A|=%d,|B|=%d,N=%d): %v", len(A), len(B), st.N, err))
 		return
@@ -231,8 +236,8 @@ func (w *World) checkAddProof(n *Node, st *State, A, B []H) {
 		w.violate(n, "C14", "addproof-proof", fmt.Sprintf("AddProof proof has %d hashes, canonical proof of the union has %d (or contents differ); N=%d A=%v B=%v", len(pc.Proof), len(want.Proof), st.N, pa.Targets, pb.Targets))
 		return
 	}
-	stump := u.Stump{Roots: append([]H(nil), L.Roots...), NumLeaves: st.N}
-	if err, _ := guard(func() error { _, e := u.Verify(stump, hs, pc); return e }); err != nil {
+	stump := n.bigStump(st)
+	if err, _ := guard(func() error { _, e := u.Verify(stump, hs, pcBig); return e }); err != nil {
 		w.violate(n, "C14", "addproof-verify", "combined proof does not verify: "+err.Error())
 	}
 }
@@ -276,8 +281,10 @@ func (w *World) checkProofSubset(n *Node, st *State, A []H, r *Rng) {
 	var hs []H
 	var ps u.Proof
 	g := w.fp.begin("GetProofSubset", A, pa.Targets, pa.Proof, wants)
-	err, _ := guard(func() error { var e error; hs, ps, e = u.GetProofSubset(pa, A, wants, st.N); return e })
+	paB, wantsB := n.upProof(pa, st.N), n.upSlice(wants, st.N)
+	err, _ := guard(func() error { var e error; hs, ps, e = u.GetProofSubset(paB, A, wantsB, n.cfg.Big+st.N); return e })
 	g.end()
+	ps.Targets = n.downTargets(ps.Targets, st.N)
 	if err != nil {
 		w.violate(n, "C14", "subset-err", fmt.Sprintf("GetProofSubset failed for covered wants %v of %v: %v", wants, pa.Targets, err))
 		return
@@ -304,7 +311,8 @@ func (w *World) checkProofSubset(n *Node, st *State, A []H, r *Rng) {
 	for _, h := range st.Live() {
 		if !inA[h] {
 			w2 := append(append([]uint64(nil), wants...), L.LeafAt[h].Pos(L.R))
-			err, panicked := guard(func() error { _, _, e := u.GetProofSubset(pa, A, w2, st.N); return e })
+			w2B := n.upSlice(w2, st.N)
+			err, panicked := guard(func() error { _, _, e := u.GetProofSubset(paB, A, w2B, n.cfg.Big+st.N); return e })
 			if err == nil || panicked {
 				w.violate(n, "C14", "subset-uncovered", fmt.Sprintf("GetProofSubset accepted (or panicked on) a want %d that the proof does not cover: %v", w2[len(w2)-1], err))
 			}
@@ -324,7 +332,13 @@ func (w *World) checkMissing(n *Node, st *State, A, D []H) {
 	heldTargets := padU(pa.Targets)
 	var got []uint64
 	// (no fingerprints: the stand-alone GetMissingPositions is excluded from C17)
-	err, _ := guard(func() error { got = u.GetMissingPositions(st.N, heldTargets, desired); return nil })
+	heldB, desiredB := n.upSlice(heldTargets, st.N), n.upSlice(desired, st.N)
+	if n.big() {
+		desiredB = append([]uint64(nil), desiredB...) // the function sorts its last argument
+	} else {
+		heldB, desiredB = heldTargets, desired
+	}
+	err, _ := guard(func() error { got = n.downTargets(u.GetMissingPositions(n.cfg.Big+st.N, heldB, desiredB), st.N); return nil })
 	if err != nil {
 		w.violate(n, "C14", "missing-panic", err.Error())
 		return
@@ -390,4 +404,17 @@ func (w *World) checkMissing(n *Node, st *State, A, D []H) {
 			w.violate(n, "C14", "missing-verify", "completed proof does not verify: "+err.Error())
 		}
 	}
+}
+
+// downTargets: answers of the helpers for a node embedded at a big offset, back
+// in the coordinates of the simulated forest.
+func (n *Node) downTargets(ts []uint64, nSmall uint64) []uint64 {
+	if !n.big() || ts == nil {
+		return ts
+	}
+	out := make([]uint64, len(ts))
+	for i, t := range ts {
+		out[i] = n.down(t, nSmall)
+	}
+	return out
 }
